@@ -1240,3 +1240,101 @@ Theorem C05_core_run : forall k terms nl c sched s s' xs rs,
   CoreProofs.KInv k terms nl c s' /\ length xs = length sched.
 Proof. intros k terms nl c sched. exact (CoreProofs.krun_spec k terms nl c sched). Qed.
 Print Assumptions C05_core_run.
+
+(* ------------------------------------------------------------------------------------------------
+   STORECONC2: progress of the composed model Mgr/Core.v.  [Core.kstep] = [kops] (Conc's guard + the
+   store script) ; [irun] of the script ; [kfin].  (1) The [None] branches of [kfin] (a result shape
+   that the script does not produce; slot id 0 for a new node) are unreachable: in every state that
+   satisfies the invariant -- in particular in every state reachable from a new manager -- an action
+   whose guard holds and whose script the store accepts yields a state.  The invariant carries
+   [1 <= term c] (precondition of [kinit], part of the allocator's invariant): the terminal slots come
+   first (`TERMINALS`), the id of every new node lies behind them *)
+From OxiVerif Require Mgr.CoreProgress Mgr.CoreProgressExamples.
+
+Theorem C05_core_step_total : forall k terms nl c s a ops i' rs,
+  CoreProofs.kreachable k terms nl c s ->
+  Core.kops k terms nl s a = Some ops -> IndexStore.irun c (Core.k_i s) ops = Some (i', rs) ->
+  exists s' r, Core.kfin s a i' rs = Some (s', r) /\ Core.kstep k terms nl c s a = Some (s', r, rs).
+Proof.
+  intros k terms nl c s a ops i' rs HR. apply CoreProgress.kstep_total. apply CoreProofs.kreachable_inv. exact HR.
+Qed.
+Print Assumptions C05_core_step_total.
+
+Theorem C05_core_step_total_inv : forall k terms nl c s a ops i' rs,
+  CoreProofs.KInv k terms nl c s ->
+  Core.kops k terms nl s a = Some ops -> IndexStore.irun c (Core.k_i s) ops = Some (i', rs) ->
+  exists s' r, Core.kfin s a i' rs = Some (s', r) /\ Core.kstep k terms nl c s a = Some (s', r, rs).
+Proof. exact CoreProgress.kstep_total. Qed.
+Print Assumptions C05_core_step_total_inv.
+
+Theorem C05_core_new_id_in_array : forall k terms nl c s tid lvl ch s' id rs,
+  CoreProofs.KInv k terms nl c s ->
+  Core.kstep k terms nl c s (Core.KGoi tid lvl ch) = Some (s', Core.KRNew id, rs) ->
+  (1 <= Alloc.term c /\ Alloc.term c <= Npos id < Alloc.term c + Alloc.cap c)%N.
+Proof. exact CoreProgress.knew_id_in_array. Qed.
+Print Assumptions C05_core_new_id_in_array.
+
+(* (2) the script itself is refused only by the ALLOCATOR: every guard inside [istep] that is about
+   edge values, counts and nodes holds in a KInv state.  [kalloc_ok]: the thread of an allocation
+   (`get_or_insert` of a node that is not in the table) exists, the collector thread of a step that
+   frees a slot exists, an allocator-internal action is internal and enabled.  A step happens IFF
+   Conc's guard holds and the allocator consents *)
+Theorem C05_core_kalloc_ok_def : forall c s a,
+  CoreProgress.kalloc_ok c s a =
+  match a with
+  | Core.KGoi tid lvl ch => Conc.find_shape (Core.k_cn s) lvl ch = None -> tid < CoreProgress.nthreads s
+  | Core.KGc t id => (exists nd, Conc.cfind (Core.k_cn s) id = Some nd /\ Conc.crc nd = 0%N) -> t < CoreProgress.nthreads s
+  | Core.KInternal a => IndexStore.internal a = true /\ Alloc.step c Alloc.good (IndexStore.i_al (Core.k_i s)) a <> None
+  | _ => True
+  end.
+Proof. reflexivity. Qed.
+Print Assumptions C05_core_kalloc_ok_def.
+
+Theorem C05_core_step_progress : forall k terms nl c s a,
+  CoreProofs.KInv k terms nl c s ->
+  ((exists s' r rs, Core.kstep k terms nl c s a = Some (s', r, rs)) <->
+   Core.kops k terms nl s a <> None /\ CoreProgress.kalloc_ok c s a).
+Proof. exact CoreProgress.kstep_some_iff. Qed.
+Print Assumptions C05_core_step_progress.
+
+(* the collector's step: enabled for every table entry when the thread exists; the entry is removed
+   iff its reported count is 0 (`load_rc == 1`) *)
+Theorem C05_core_gc_progress : forall k terms nl c s t id nd,
+  CoreProofs.KInv k terms nl c s -> t < CoreProgress.nthreads s -> Conc.cfind (Core.k_cn s) id = Some nd ->
+  exists s' r rs, Core.kstep k terms nl c s (Core.KGc t id) = Some (s', r, rs) /\
+    CoreProgress.nthreads s' = CoreProgress.nthreads s /\
+    (if N.eqb (Conc.crc nd) 0 then r = Core.KRRemoved else r = Core.KRKept /\ s' = s).
+Proof. exact CoreProgress.kgc_progress. Qed.
+Print Assumptions C05_core_gc_progress.
+
+(* non-vacuity: a reachable state in which Conc's guard of a `get_or_insert` holds for threads 0 and 7,
+   the allocator consents for thread 0 (the step happens) and refuses thread 7 (3 threads exist) *)
+Theorem C05_core_progress_example :
+  exists s, CoreProofs.kreachable Table.KBdd CoreExamples.kx_terms 4 AllocExamples.ex_cfg s /\
+    CoreProgress.nthreads s = 3 /\
+    Core.kops Table.KBdd CoreExamples.kx_terms 4 s (Core.KGoi 7 0 [CoreExamples.KT0; CoreExamples.KT1]) <> None /\
+    ~ CoreProgress.kalloc_ok AllocExamples.ex_cfg s (Core.KGoi 7 0 [CoreExamples.KT0; CoreExamples.KT1]) /\
+    Core.kstep Table.KBdd CoreExamples.kx_terms 4 AllocExamples.ex_cfg s (Core.KGoi 7 0 [CoreExamples.KT0; CoreExamples.KT1]) = None /\
+    Core.kops Table.KBdd CoreExamples.kx_terms 4 s (Core.KGoi 0 0 [CoreExamples.KT0; CoreExamples.KT1]) <> None /\
+    CoreProgress.kalloc_ok AllocExamples.ex_cfg s (Core.KGoi 0 0 [CoreExamples.KT0; CoreExamples.KT1]) /\
+    Core.kstep Table.KBdd CoreExamples.kx_terms 4 AllocExamples.ex_cfg s (Core.KGoi 0 0 [CoreExamples.KT0; CoreExamples.KT1]) <> None.
+Proof. exact CoreProgressExamples.kx_progress. Qed.
+Print Assumptions C05_core_progress_example.
+
+(* BCDD: [KNot] (complement of an owned edge: a tag flip of the token, no store operation) in a run
+   with every other action; the run projects to a run of Conc.v that contains the [ANot] *)
+Theorem C05_core_bcdd_example :
+  exists s, Core.krun Table.KBcdd ConcExamples.bc_terms 2 CoreProgressExamples.kb_cfg
+              (Core.kinit CoreProgressExamples.kb_cfg 2) CoreProgressExamples.kb_sched =
+            Some (s, CoreProgressExamples.kb_results, CoreProgressExamples.kb_store_results) /\
+    CoreProofs.kreachable Table.KBcdd ConcExamples.bc_terms 2 CoreProgressExamples.kb_cfg s /\
+    CoreProofs.KInv Table.KBcdd ConcExamples.bc_terms 2 CoreProgressExamples.kb_cfg s /\
+    Core.klink_b s = true /\ Conc.cinv_b Table.KBcdd ConcExamples.bc_terms 2 (Core.kproj s) = true /\
+    IndexStore.iinv_b CoreProgressExamples.kb_cfg (Core.k_i s) = true /\
+    IndexStoreProofs.no_leak CoreProgressExamples.kb_store_results = true /\
+    Core.kproj s = Conc.mkCst [(1%positive, Conc.mkC 1 [ConcExamples.BT false; ConcExamples.BT true] 1%N)] [(0, ConcExamples.B 1 true)] /\
+    In (Conc.ANot 0 (ConcExamples.B 1 false)) (Core.kacts_list CoreProgressExamples.kb_sched CoreProgressExamples.kb_results) /\
+    Conc.run Table.KBcdd ConcExamples.bc_terms 2 Conc.cempty
+      (Core.kacts_list CoreProgressExamples.kb_sched CoreProgressExamples.kb_results) = Some (Core.kproj s).
+Proof. exact CoreProgressExamples.kb_run. Qed.
+Print Assumptions C05_core_bcdd_example.
